@@ -88,8 +88,8 @@ pub static INFO: PropInfo = PropInfo {
     run,
 };
 
-const QUICK_RUNS: u64 = 1600;
-const THOROUGH_RUNS: u64 = 60_000;
+const QUICK_RUNS: u64 = 4800;
+const THOROUGH_RUNS: u64 = 120_000;
 
 pub fn run(ctx: &Ctx, out: &mut Outcome) {
     if ctx.replay_seed.is_some() {
